@@ -20,9 +20,9 @@ type SubnetSpec struct {
 }
 
 var v4Anchors = []string{"0.0.0.0", "255.255.255.255", "10.0.0.0", "10.0.0.1", "10.1.2.3", "127.255.255.255", "128.0.0.0", "192.0.2.7", "10.0.1.0", "9.255.255.255"}
-var v6Anchors = []string{"::", "ffff:ffff:ffff:ffff:ffff:ffff:ffff:ffff", "2001:db8::", "2001:db8::1", "2001:db8:0:1::", "::1", "0:0:0:0:1::", "0:0:0:0:0:fffe:ffff:ffff", "8000::", "2001:db7:ffff:ffff:ffff:ffff:ffff:ffff", "fe80::1"}
+var v6Anchors = []string{"::", "ffff:ffff:ffff:ffff:ffff:ffff:ffff:ffff", "fc00::", "2000::", "fdff:ffff:ffff:ffff:ffff:ffff:ffff:ffff", "2001:db8::", "2001:db8::1", "2001:db8:0:1::", "::1", "0:0:0:0:1::", "0:0:0:0:0:fffe:ffff:ffff", "8000::", "2001:db7:ffff:ffff:ffff:ffff:ffff:ffff", "fe80::1"}
 var v4Lens = []int{0, 1, 7, 8, 9, 15, 16, 17, 23, 24, 25, 30, 31, 32}
-var v6Lens = []int{0, 1, 15, 16, 32, 47, 48, 56, 63, 64, 65, 80, 95, 96, 97, 112, 127, 128}
+var v6Lens = []int{0, 1, 3, 7, 8, 9, 15, 16, 32, 47, 48, 56, 63, 64, 65, 80, 95, 96, 97, 112, 127, 128}
 
 func maskIP(ip net.IP, n int) net.IP {
 	out := make(net.IP, len(ip))
